@@ -138,3 +138,30 @@ reg("C20",
     "slot/table algebra + def-use + sibling agreement (ast)",
     "behavioural equivalence of copies is numerical; dill internals trusted",
     "3/C20")
+
+
+# clauses added during the build (rules that came out of the seeded-change rounds and of the defects found on the way)
+EXTRA = {
+    "C01": "forward-expansion memo lists are used with one set of matrices each and are reset with them",
+    "C03": "the smoother's backward recursion is contiguous (threshold guard, not a per-period quantity); per-period info series are stamped with the filtered periods",
+    "C04": "the !all-but flag is recorded unconditionally; log status = listed XOR all-but (finite evaluation)",
+    "C05": "a block is skipped only when it has no unknowns at all (truth table); prefetch accumulation order and order-preserving split of matched ids",
+    "C06": "the terminal condition logs every column it reads; frames prune later surprises against the simulation end; per-variant loops use the variant",
+    "C07": "plan membership is start..end inclusive; one period window for building, filling and cropping the conditioning arrays; exogenized targets "
+           "are read in the space of the state (logs); every flattening of the endogenized-anticipated incidence uses one order",
+    "C08": "smoother recursion contiguous; one expansion memo per representation; the per-variant loop uses the variant; one-shot iterators are consumed once",
+    "C09": "memoised methods read only construction-time attributes; daily calendar forms agree with the calendar on finite evaluation",
+    "C10": "trim arithmetic by finite evaluation over (rows, leading, trailing); one-shot iterators are consumed once",
+    "C12": "arip parameters are the average change per elapsed period; aggregation vectors as documented; `select` indexes positions",
+    "C13": "keyword shifts: the Series and Period sides agree and the Series side reads the original span before mutating; shift-guard truth table",
+    "C14": "the filter object reused across variants is not mutated; every variant of the result is kept",
+    "C16": "prefetch pairing order (finite evaluation of _split_ids); the failing path cannot yield a full permutation",
+    "C17": "exogenized points are recognised by None-ness, not truthiness; the per-variant loop uses the variant",
+    "C18": "per-variant loops never hand the container to a per-variant parameter",
+    "C19": "the resolver pairs sources and targets (finite evaluation); one-shot iterators are consumed once",
+    "C20": "restore is verbatim; variant selectors are read; one-shot iterators are not consumed inside variant loops; derived state is rebuilt "
+           "after its inputs change; portable (level, change) pairs survive JSON",
+}
+EXTRA_TECHNIQUE = ("; plus generic dataflow rules built for this repository: self-state effects with alias tracking, cache-invalidation discipline, "
+                   "variant-loop hygiene, one-shot-iterator exhaustion, path/decision extraction, finite evaluation of extracted leaf functions; "
+                   "renamed locals/private helpers are alpha-translated before the rules run")
